@@ -10,13 +10,19 @@ class Check(EngineCheck):
     theorems = [E + "C07_lasso", E + "C07_empty_report_only_when_root_complete", E + "C07_wait_for_is_real", E + "C07_parked_dep", E + "C07_failure_has_cause", E + "C07_cycle_never_succeeds", E + "Clean_not_cyclic",
                 "LLBuild.Refine.refinement_final", "LLBuild.Refine.EngineImpl_sound_C07_cycle", "LLBuild.Refine.EngineImpl_sound_C05_quiescent",
                 "LLBuild.Refine.build_terminates", "LLBuild.Refine.EngineImpl_terminates", "LLBuild.Refine.EngineImpl_sound_C07_cycle_sized",
+                # on the concrete model's printed traces (Props/EngineImplSched4.lean): a reported cycle is a real wait-for lasso of
+                # tokens of the same trace; the empty report only after the root completed (F30); a statically acyclic program never
+                # gets a report; a cycle in the reference graph (value, must-follow, single-use or recorded edges) is never survived
+                "LLBuild.Refine.EngineImpl_sound_C07_reported_cycle_real", "LLBuild.Refine.EngineImpl_sound_C07_empty_report",
+                "LLBuild.Refine.EngineImpl_sound_C07_never_falsely", "LLBuild.Refine.EngineImpl_sound_C07_cycle_always_detected",
+                "LLBuild.Refine.EngineImpl_sound_C07_value_cycle", "LLBuild.Refine.runBuildA_CY_blocked",
                 E + "engine_fingerprint_matches_model"]
     mix = [(0.35, {"cyclic": True}), (0.25, {"cyclic": True, "malformed": True}), (0.15, {"cyclic": True, "cancel": True}), (0.1, {}),
            # cycles that appear after an input changed and close through dependencies an earlier build recorded
            (0.15, {"latent": True})]
     budget = (300, 3000)
     assumptions = EngineCheck.assumptions + [
-        "'never stalls': for the transliterated engine it is the theorem EngineImpl_terminates (no build emits the stall or fuel marker, under the computable size condition histSized); on the real engine it is additionally watched by the harness's watchdog; 'a real cycle is always reported' is proved in the form C07_cycle_never_succeeds (no accepted history ends a build of a key in a cyclic set successfully) for cycles through value-carrying requests; cycles through must-follow / single-use edges and the absence of stalls are decided by the python reference evaluation of the demanded graph on the real engine's traces"]
+        "'never stalls': for the transliterated engine it is the theorem EngineImpl_terminates (no build emits the stall or fuel marker, under the computable size condition histSized); on the real engine it is additionally watched by the harness's watchdog; 'a real cycle is always reported' is proved in the form C07_cycle_never_succeeds (no accepted history ends a build of a key in a cyclic set successfully) for cycles through value-carrying requests at monitor level, and as EngineImpl_sound_C07_cycle_always_detected for cycles through ANY edge (value, must-follow, single-use, recorded dependencies being scanned) on the concrete model; on the real engine's traces the python reference evaluation of the demanded graph judges in addition"]
 
 
 CHECK = Check()
